@@ -576,6 +576,13 @@ func BVAdd(a, b *Term) *Term {
 	if b.IsConst() && a.Op == "bvadd" && a.Args[1].IsConst() && w <= 64 {
 		return BVAdd(a.Args[0], Const(w, a.Args[1].Val+b.Val))
 	}
+	// a + (g - a) = g
+	if b.Op == "bvsub" && b.Args[1] == a {
+		return b.Args[0]
+	}
+	if a.Op == "bvsub" && a.Args[1] == b {
+		return a.Args[0]
+	}
 	return bin("bvadd", a, b)
 }
 
@@ -589,6 +596,15 @@ func BVSub(a, b *Term) *Term {
 	}
 	if a == b {
 		return Const(w, 0)
+	}
+	// (x + y) - x = y
+	if a.Op == "bvadd" && len(a.Args) == 2 {
+		if a.Args[0] == b {
+			return a.Args[1]
+		}
+		if a.Args[1] == b {
+			return a.Args[0]
+		}
 	}
 	// (x + c) - x
 	if ba, ca := splitAdd(a); ba != nil && ba == b && w <= 64 {
